@@ -179,6 +179,17 @@ def run_pair(exe, script_path):
     return ri.stdout, rm.stdout, ri.returncode, rm.returncode
 
 
+MARKERS = ("GUARD", "LIFE", "BADFREE", "PATHERR", "CRASH", "EXIT")
+
+
+def strip_markers(lines):
+    """alarm lines exist on the implementation side only; two streams that differ in nothing
+    else agree: the faithful model carries the same behaviour"""
+    # (lifetime events of objects that end up outside their block cannot be attributed by the
+    # harness: they are not part of this comparison either; allocation events are)
+    return [l for l in lines if not l.startswith(MARKERS) and not (l.startswith("EV ") and l.split()[1] not in ("A", "D", "AFAIL"))]
+
+
 def first_diff(a, b):
     for i, (x, y) in enumerate(zip(a, b)):
         if x != y:
@@ -272,48 +283,88 @@ def main():
         results = list(ex.map(run_job, runnable))
     stats["t_run"] = round(time.time() - tr, 1)
 
-    for j, iout, mout, irc, mrc in results:
-        ih, ib = split_blocks(iout)
-        mh, mb = split_blocks(mout)
-        stats["lists"].append(repr(j.L))
-        if mrc != 0:
-            violations.append({"kind": "model-runner-failed", "L": j.L, "K": j.K, "detail": mout[-2000:], "script": [],
-                               "header": gen.header_text(j.L, j.K, j.statics)})
-            continue
-        # static layout lines
-        d = None if getattr(j, "skip_header", False) else first_diff(ih, mh)
-        stats["lines_compared"] += len(mh)
-        if d is not None:
-            stats["disagreements"] += 1
-            violations.append({"kind": "static-layout-disagrees", "L": j.L, "K": j.K,
-                               "detail": "impl: %s | model: %s" % (d[1], d[2]), "script": [],
-                               "header": gen.header_text(j.L, j.K, j.statics)})
-        for sid, lines, expect in j.scripts:
-            stats["scripts"] += 1
-            stats["steps"] += len(lines)
-            for l in lines:
-                o = l.split()[0]
-                stats["ops"][o] = stats["ops"].get(o, 0) + 1
-            il, ml = canon(ib.get(sid, ["<missing>"])), canon(mb.get(sid, ["<missing>"]))
-            stats["lines_compared"] += len(ml)
-            if len(samples) < 3 and len(lines) > 3:
-                samples.append({"list": repr(j.L), "alloc_kind": list(j.K), "script": lines[:12]})
-            # the property oracle runs on the implementation's own observations
-            ov = oracles.check(prop, j.L, j.K, lines, ib.get(sid, ["<missing>"]), expect)
-            d = first_diff(il, ml)
+    def evaluate(results):
+        for j, iout, mout, irc, mrc in results:
+            ih, ib = split_blocks(iout)
+            mh, mb = split_blocks(mout)
+            stats["lists"].append(repr(j.L))
+            if mrc != 0:
+                violations.append({"kind": "model-runner-failed", "L": j.L, "K": j.K, "detail": mout[-2000:], "script": [],
+                                   "header": gen.header_text(j.L, j.K, j.statics)})
+                continue
+            # static layout lines
+            d = None if getattr(j, "skip_header", False) else first_diff(ih, mh)
+            static_ok = d is None
+            stats["lines_compared"] += len(mh)
             if d is not None:
                 stats["disagreements"] += 1
-            if (ov or d is not None) and getattr(j, "lists", None):
-                # static sweep: the replay is an ordinary unit of that list with the same static lines
-                Lx = j.lists[sid]
-                violations.append({"kind": "static-layout-disagrees", "L": Lx, "K": j.K,
-                                   "detail": "impl: %s | model: %s" % (d[1], d[2]) if d is not None else ov[0],
-                                   "script": [], "header": gen.header_text(Lx, j.K, lines)})
-            elif ov or d is not None:
-                violations.append({"kind": "oracle" if ov else "correspondence", "L": j.L, "K": j.K,
-                                   "detail": (ov[0] if ov else "impl: %s | model: %s (line %d)" % (d[1], d[2], d[0])),
-                                   "oracle": ov, "script": lines, "sid": sid, "job": j,
+                violations.append({"kind": "static-layout-disagrees", "L": j.L, "K": j.K,
+                                   "detail": "impl: %s | model: %s" % (d[1], d[2]), "script": [],
                                    "header": gen.header_text(j.L, j.K, j.statics)})
+            for sid, lines, expect in j.scripts:
+                stats["scripts"] += 1
+                stats["steps"] += len(lines)
+                for l in lines:
+                    o = l.split()[0]
+                    stats["ops"][o] = stats["ops"].get(o, 0) + 1
+                il, ml = canon(ib.get(sid, ["<missing>"])), canon(mb.get(sid, ["<missing>"]))
+                stats["lines_compared"] += len(ml)
+                if len(samples) < 3 and len(lines) > 3:
+                    samples.append({"list": repr(j.L), "alloc_kind": list(j.K), "script": lines[:12]})
+                # the property oracle runs on the implementation's own observations
+                ov = oracles.check(prop, j.L, j.K, lines, ib.get(sid, ["<missing>"]), expect)
+                d = first_diff(il, ml)
+                if d is not None:
+                    stats["disagreements"] += 1
+                if (ov or d is not None) and getattr(j, "lists", None):
+                    # static sweep: the replay is an ordinary unit of that list with the same static lines
+                    Lx = j.lists[sid]
+                    violations.append({"kind": "static-layout-disagrees", "L": Lx, "K": j.K,
+                                       "detail": "impl: %s | model: %s" % (d[1], d[2]) if d is not None else ov[0],
+                                       "script": [], "header": gen.header_text(Lx, j.K, lines)})
+                elif ov or d is not None:
+                    violations.append({"kind": "oracle" if ov else "correspondence", "L": j.L, "K": j.K,
+                                       "detail": (ov[0] if ov else "impl: %s | model: %s (line %d)" % (d[1], d[2], d[0])),
+                                       "oracle": ov, "script": lines, "sid": sid, "job": j,
+                                       "model_agrees": static_ok and first_diff(canon(strip_markers(ib.get(sid, []))), canon(strip_markers(mb.get(sid, [])))) is None,
+                                       "model_agrees_static": static_ok,
+                                       "header": gen.header_text(j.L, j.K, j.statics)})
+
+
+    evaluate(results)
+
+    # ---- a broken static layout on a swept list: search that list for a failing input
+    swept = [v for v in violations if v["kind"] == "static-layout-disagrees" and not v["script"] and v["L"]]
+    if swept and not args.replay:
+        def flips(v):
+            """does the differing static line change a decision of the placement code? (a trailing
+            alignment that differs without crossing the next field's alignment changes nothing)"""
+            m = re.match(r"impl: TRAILS ([\d ]+) \| model: TRAILS ([\d ]+)", v["detail"])
+            if not m:
+                return 1
+            a, b = [int(x) for x in m.group(1).split()], [int(x) for x in m.group(2).split()]
+            L = v["L"]
+            nxt = [p.align for p in L[1:]] + [lay.SA(L)]
+            return 0 if any((x < al) != (y < al) for x, y, al in zip(a, b, nxt)) else 2
+        swept.sort(key=flips)
+        seen_l, extra = set(), []
+        for v in swept:
+            key = repr(v["L"])
+            if key in seen_l or len(extra) >= 16:
+                continue
+            seen_l.add(key)
+            extra += families.followup_jobs(prop, v["L"], rng)
+        built = []
+        with cf.ThreadPoolExecutor(max_workers=16) as ex:
+            built = list(ex.map(build_unit, [(gen.unit_text(j.L, j.K), shash, j.cxx_extra) for j in extra]))
+        more = []
+        for j, (exe, err, cached) in zip(extra, built):
+            if exe is not None:
+                j.exe = exe
+                more.append(j)
+        with cf.ThreadPoolExecutor(max_workers=16) as ex:
+            evaluate(list(ex.map(run_job, more)))
+        stats["followup_units"] = len(more)
 
     # ---- verdict
     known = [k for k in load_known() if k["property"] == prop]
@@ -330,10 +381,12 @@ def main():
     seen_kinds = set()
     ts = time.time()
     nshrunk = 0
+    # failing inputs found by the oracle are reported first
+    violations.sort(key=lambda v: {"oracle": 0, "does-not-compile": 1, "correspondence": 2}.get(v["kind"], 3))
     for v in violations:
         if v["kind"] in ("oracle", "correspondence") and not args.replay and nshrunk < 4:
             nshrunk += 1
-            v = families.shrink(v, prop, run_pair, canon, split_blocks, first_diff, oracles, rundir)
+            v = families.shrink(v, prop, run_pair, canon, split_blocks, first_diff, oracles, rundir, strip_markers)
         kkey = oracles.known_key(prop, v, known)
         if kkey is not None:
             known_hits.setdefault(kkey["key"], kkey)
